@@ -8,10 +8,10 @@ LEVEL = 'exploration'
 SALTS = 8
 STEP_BUDGET = 1200
 MAX_SIZE = 20
-RULE = ('odd runs sweep a systematic enumeration: every node shape ([negated] operator over literals, 68 shapes) in every '
+RULE = ('odd runs sweep a systematic enumeration: every node shape ([negated] operator over literals and double negations, 94 shapes) in every '
         'small literal context (as premise with 0-1 literal premises and a literal conclusion; as conclusion with 0-2 literal '
-        'premises; 39 contexts) in every logic, the quick tier exploring a seed-dependent slice and the thorough tier the whole '
-        'enumeration; even runs = one generated argument over sentence letters and truth-functional operators only '
+        'premises; 31 contexts); the quick tier sweeps all of it in one logic per distinct set of truth-functional rule implementations '
+        '(groups read from the rule classes), the thorough tier in every logic; even runs = one generated argument over sentence letters and truth-functional operators only '
         '(<=4 letters, depth<=3 quick / <=4 thorough, total size<=20, <=2 biconditionals, 0-3 premises, 30% mutated library examples) in one of '
         'the 57 logics (stratified), one of the 4 optimisation-option combinations, a seeded tie-break '
         'order and cache size, no step/time limit, stepped by the simulator (lost-tick monitor; a 1200-step budget only marks a run inconclusive); '
@@ -63,12 +63,13 @@ LITS = (A_, B_, _neg(A_), _neg(B_))
 
 def _shapes():
     out = []
+    nn = _neg(_neg(A_))
     for op in BINOPS:
-        for l, r in ((A_, B_), (B_, A_), (A_, A_), (_neg(A_), B_), (A_, _neg(B_))):
+        for l, r in ((A_, B_), (B_, A_), (A_, A_), (_neg(A_), B_), (A_, _neg(B_)), (nn, B_), (B_, nn)):
             s = ('O', op, (l, r))
             out.append(s); out.append(_neg(s))
-    for op in ('Assertion', 'Negation'):
-        for l in (A_, _neg(A_)):
+    for op, ls in (('Assertion', (A_, _neg(A_), nn)), ('Negation', (A_, _neg(A_)))):
+        for l in ls:
             s = ('O', op, (l,))
             out.append(s); out.append(_neg(s))
     return out
@@ -91,31 +92,55 @@ def _contexts():
 CONTEXTS = _contexts()
 ENUM_SIZE = len(SHAPES) * len(CONTEXTS)
 
-def enumerated_case(e, nlogics):
-    "e-th member of the (logic-fastest) enumeration of shape-in-context arguments."
-    k = (e // nlogics) % ENUM_SIZE
+def enumerated_case(k):
+    "k-th shape-in-context argument."
+    k %= ENUM_SIZE
     shape = SHAPES[k % len(SHAPES)]
     prems, conc = CONTEXTS[k // len(SHAPES)]
     prems = [shape if p == 'X' else p for p in prems]
     conc = shape if conc == 'X' else conc
     return prems, conc
 
+_REPS = None
+def representatives():
+    """One logic per distinct set of truth-functional operator rule implementations (read from
+    the rule classes themselves: modal, quantifier and access rules left out)."""
+    global _REPS
+    if _REPS is None:
+        from pytableaux.logics import registry
+        groups = {}
+        for name in proofwl.LOGICS:
+            key = []
+            for r in registry(name).Rules.all():
+                op = getattr(r, 'operator', None)
+                if op is not None and op.name in ('Possibility', 'Necessity'): continue
+                if getattr(r, 'quantifier', None) is not None: continue
+                if r.__qualname__.startswith('access.') or any(c.__qualname__.startswith('access.') for c in r.__mro__): continue
+                own = tuple(c.__module__ + '.' + c.__qualname__ for c in r.__mro__
+                            if c.__module__.startswith('pytableaux') and any(not k.startswith('__') and k != '_abc_impl' for k in c.__dict__))
+                key.append((r.name, own))
+            groups.setdefault(tuple(sorted(key)), []).append(name)
+        _REPS = sorted(min(v) for v in groups.values())
+    return _REPS
+
+def enum_plan(tier):
+    "(logics, members) of the systematic sweep: quick = one logic per rule-implementation group, thorough = all."
+    logics = representatives() if tier == 'quick' else proofwl.LOGICS
+    return logics, len(logics) * ENUM_SIZE
+
+def enum_cfg(ctx, srng, e):
+    logics, n = enum_plan(ctx.tier)
+    e %= n
+    logic = logics[e % len(logics)]
+    prems, conc = enumerated_case(e // len(logics))
+    opts = dict(proofwl.ALL_OPT_COMBOS[srng.randrange(4)])
+    opts['is_build_models'] = False
+    return proofsim.Config(logic, prems, conc, opts, order_seed=srng.choice((0, srng.getrandbits(32))),
+        cache=srng.choice(proofsim.CACHE_SIZES), drive='step')
+
 def make_cfg(ctx):
     rng = ctx.rng('workload')
     logic = proofwl.pick_logic(rng, ctx.index, SALTS)
-    if ctx.index % 2 == 1:
-        # systematic half: the slice explored by one batch starts at a seed-dependent offset;
-        # the thorough tier sweeps the whole enumeration (ENUM_SIZE contexts x all logics)
-        wl = proofwl.weighted_logics()
-        off = (ctx.seed * 7919) % (ENUM_SIZE * len(wl))
-        e = off + ctx.index // 2
-        logic = wl[e % len(wl)]
-        prems, conc = enumerated_case(e, len(wl))
-        srng = ctx.rng('schedule')
-        opts = dict(proofwl.ALL_OPT_COMBOS[srng.randrange(4)])
-        opts['is_build_models'] = False
-        return proofsim.Config(logic, prems, conc, opts, order_seed=srng.choice((0, srng.getrandbits(32))),
-            cache=srng.choice(proofsim.CACHE_SIZES), drive='step')
     prof = lexgen.Profile(rng, depth=rng.choice((1, 2, 2, 3, 3) if ctx.tier == 'quick' else (1, 2, 3, 3, 4)))
     if rng.random() < 0.3:
         exs = [e for e in proofwl.example_args() if all(
@@ -209,6 +234,19 @@ def minimise(ctx, v):
     return proofcheck.minimise_violation(v, _key)
 
 def run(ctx):
+    if ctx.index % 2 == 1:
+        # systematic half: this run's slice of the whole shape-in-context enumeration (both tiers
+        # sweep all of it; later passes repeat it under other seeded schedules)
+        logics, n = enum_plan(ctx.tier)
+        nodd = max(1, plan(ctx.tier)['runs'] // 2)
+        per = -(-n // nodd)
+        j = ctx.index // 2
+        off = (ctx.seed * 7919) % n
+        srng = ctx.rng('schedule')
+        for e in range(j * per, (j + 1) * per):
+            ctx.count('enumerated_members')
+            check_cfg(ctx, enum_cfg(ctx, srng, off + e))
+        return
     check_cfg(ctx, make_cfg(ctx))
 
 def replay(ctx, spec):
